@@ -23,6 +23,7 @@ type report struct {
 	Classes     map[string]uint64 `json:"classes"`
 	Spaces      []map[string]any  `json:"spaces"`
 	Failures    []kit.Failure     `json:"failures"`
+	KeyCounts   map[string]int    `json:"key_counts"`
 	Harness     []string          `json:"harness_errors"`
 	Samples     []any             `json:"samples"`
 	WallS       float64           `json:"wall_s"`
@@ -119,6 +120,7 @@ func main() {
 		"workers":                       r.Workers,
 		"isolated_workers":              false,
 		"driver_wall_s":                 r.WallS,
+		"failing_cases_by_key":          r.KeyCounts,
 	}
 	os.Exit(kit.Finish("C29", "model_checking", tier, cov, assumptions, r.Failures, r.Harness, start))
 }
